@@ -787,27 +787,46 @@ func constSign(v interface{ String() string }) int {
 
 // WrapperCtx: results of a wrapper's methods keep the wrapper's factory (the hasher context of fp.Set).
 func WrapperCtx(c *core.Ctx, rule string, p *packages.Package, floor int) {
-	c.Rule(rule, "in every method of the persistent-collection wrappers fp.Set / fp.Map that have a function-typed factory field (fp.Set.getEmpty: the source of the empty collection with the user's Hashable) and returns the same wrapper type, each composite literal of the wrapper type sets that field from the receiver: a result built as W{} falls back to the built-in == on Go maps for every later insertion, so it no longer agrees with the reference under a hasher whose Eqv is coarser than ==")
+	c.Rule(rule, "in every function or method of the root package that takes an fp.Set (receiver or parameter) and returns an fp.Set, each composite literal of the wrapper type sets its function-typed factory field (getEmpty: the source of the empty collection with the user's Hashable) from one of those Set operands: a result built as Set{} falls back to the built-in == on Go maps for every later insertion, so it no longer agrees with the reference under a hasher whose Eqv is coarser than ==")
 	info := p.TypesInfo
 	n := 0
+	isWrapper := func(t types.Type) *types.Named {
+		if pt, ok := t.(*types.Pointer); ok {
+			t = pt.Elem()
+		}
+		rn := namedOf(t)
+		if rn == nil || rn.Obj().Pkg() != p.Types || (rn.Obj().Name() != "Set" && rn.Obj().Name() != "Map") {
+			return nil
+		}
+		return rn
+	}
 	for _, fb := range funcBodies(c, []*packages.Package{p}) {
-		if fb.Lit != nil || fb.Decl == nil || fb.Decl.Recv == nil || len(fb.Decl.Recv.List) != 1 || len(fb.Decl.Recv.List[0].Names) != 1 {
+		if fb.Lit != nil || fb.Decl == nil {
 			continue
 		}
-		recv := info.Defs[fb.Decl.Recv.List[0].Names[0]]
-		if recv == nil {
-			continue
+		// wrapper-typed operands
+		var rn *types.Named
+		operands := map[types.Object]bool{}
+		if fb.Decl.Recv != nil && len(fb.Decl.Recv.List) == 1 && len(fb.Decl.Recv.List[0].Names) == 1 {
+			if o := info.Defs[fb.Decl.Recv.List[0].Names[0]]; o != nil {
+				if w := isWrapper(o.Type()); w != nil {
+					rn = w
+					operands[o] = true
+				}
+			}
 		}
-		rt := recv.Type()
-		if pt, ok := rt.(*types.Pointer); ok {
-			rt = pt.Elem()
+		for _, f := range fb.Type.Params.List {
+			for _, nm := range f.Names {
+				if o := info.Defs[nm]; o != nil {
+					if w := isWrapper(o.Type()); w != nil && (rn == nil || w.Obj() == rn.Obj()) {
+						rn = w
+						operands[o] = true
+					}
+				}
+			}
 		}
-		rn := namedOf(rt)
 		if rn == nil {
 			continue
-		}
-		if rn.Obj().Name() != "Set" && rn.Obj().Name() != "Map" {
-			continue // the persistent-collection wrappers of the property
 		}
 		st, ok := rn.Underlying().(*types.Struct)
 		if !ok {
@@ -822,7 +841,6 @@ func WrapperCtx(c *core.Ctx, rule string, p *packages.Package, floor int) {
 		if len(factory) == 0 {
 			continue
 		}
-		// returns the wrapper type?
 		returnsW := false
 		if fb.Type.Results != nil {
 			for _, r := range fb.Type.Results.List {
@@ -862,8 +880,7 @@ func WrapperCtx(c *core.Ctx, rule string, p *packages.Package, floor int) {
 					}
 					positional = false
 					if id, ok := kv.Key.(*ast.Ident); ok && id.Name == f {
-						// value must come from the receiver's field
-						if sel, ok := ast.Unparen(kv.Value).(*ast.SelectorExpr); ok && sel.Sel.Name == f && objOf(info, sel.X) == recv {
+						if sel, ok := ast.Unparen(kv.Value).(*ast.SelectorExpr); ok && sel.Sel.Name == f && operands[objOf(info, sel.X)] {
 							set = true
 						}
 					}
@@ -872,15 +889,15 @@ func WrapperCtx(c *core.Ctx, rule string, p *packages.Package, floor int) {
 					set = true // all fields given positionally (constructor-style)
 				}
 				if !set {
-					c.Add(rule, key, cl.Pos(), core.Violated, exprString(cl)+" does not carry the receiver's "+f+": the result forgets the Hashable it was built with, and elements added to it later are compared with == instead")
+					c.Add(rule, key, cl.Pos(), core.Violated, exprString(cl)+" does not carry the "+f+" of a Set operand: the result forgets the Hashable it was built with, and elements added to it later are compared with == instead")
 					return true
 				}
 			}
-			c.Add(rule, key, cl.Pos(), core.Discharged, "factory field taken from the receiver")
+			c.Add(rule, key, cl.Pos(), core.Discharged, "factory field taken from a Set operand")
 			return true
 		})
 	}
-	c.Floor(rule, "wrapper literals in wrapper-returning methods", n, floor)
+	c.Floor(rule, "wrapper literals in wrapper-returning functions", n, floor)
 }
 
 // ---------------------------------------------------------------- R-PAYLOAD
